@@ -2,6 +2,7 @@ import JominiModel.Proofs.TextTapeCutLex
 import JominiModel.Proofs.TextTapeStable
 import JominiModel.Proofs.TextTapeCutFields
 import JominiModel.Proofs.TextTapeCutTail
+import JominiModel.Proofs.TextTapePrefixB
 /-
 C19 (text tape parser): what the scalar scanners and the whole parser return on a truncated input.
 -/
@@ -290,12 +291,16 @@ running in lockstep):
     the full tape, so the truncated tape never exceeds the full one by more than that;
 (3) nothing is fabricated: every scalar of the truncated tape carries exactly the bytes the FULL
     input has at the scalar's offset, inside the truncated part.
-Missing for the full statement: the classification of those at most 13 tail tokens into (a) and
-(b), i.e. the comparison of the last iterations of the truncated run with the iterations of the
-full run on the same bytes (the lexeme-level part of it is `C19_scalar_not_merged` /
-`C19_quote_not_extended`), a sharp bound instead of 13, and what happens to the containers open at
-the split point (they keep their index and kind; the `end` / flag fields are written when they are
-closed).  With it `C19_text_tape_fields_partial` would lose its `_partial`.
+Sharper since: `C19_text_tape_tail_sharp` (at most SIX tail tokens, attained) and
+`C19_text_tape_boundary_cut` (cuts on lexeme boundaries: the truncated tape IS the full run's tape at
+that iteration, plus the EOF tolerance — only cases (a) and (c)).
+Still missing for the full statement: for cuts INSIDE a lexeme (or where the continuation starts
+with `=`, `[` or a byte that is not a boundary) the classification of the at most six tail tokens
+into (a) and (b) — the comparison of the last iterations with the full run's on the shortened
+lexeme (its lexeme-level part is `C19_scalar_not_merged` / `C19_quote_not_extended`) — and what
+happens to the containers open at the split point (they keep their index and kind; the `end` / flag
+fields are written when they are closed).  With it `C19_text_tape_fields_partial` would lose its
+`_partial`.
 -/
 theorem C19_text_tape_tail_partial (d : Bytes) (k : Nat) (T' T : List Tok) (b' b : Bool)
     (hk : k ≤ d.length) (hbom : hasBom (d.take k) = hasBom d)
@@ -356,5 +361,122 @@ example :
       .ok [.unquoted ⟨11, [97]⟩, .object 6 false, .unquoted ⟨8, [98]⟩, .unquoted ⟨6, [99]⟩,
         .unquoted ⟨4, [100]⟩, .unquoted ⟨2, [101]⟩, .endTok 1] false := by
   decide +kernel
+
+/-- C19 (text tape), the sharp tail bound for ALL inputs and ALL cuts: behind the tape `C` of the
+split point the truncated tape has at most SIX tokens (three in the iteration that leaves fewer than
+two bytes, at most two for the last byte — KeyValueSeparator may insert `MixedContainer` and hand
+the byte on — and the `End` of the EOF tolerance), and `C` is not longer than the full tape; the
+common tokens and the scalar payloads are as in `C19_text_tape_tail_partial`. -/
+theorem C19_text_tape_tail_sharp (d : Bytes) (k : Nat) (T' T : List Tok) (b' b : Bool)
+    (hk : k ≤ d.length) (hbom : hasBom (d.take k) = hasBom d)
+    (h' : parse (d.take k) = .ok T' b') (h : parse d = .ok T b) :
+    ∃ C : List Tok,
+      C.length ≤ T'.length ∧ C.length ≤ T.length ∧ T'.length ≤ C.length + 6 ∧
+      (∀ i, i + 1 < C.length → NotOpen C i →
+        T'[i]? = C[i]? ∧ T[i]? = (C[i]?).map (Tok.shift (d.length - k))) ∧
+      (∀ s ∈ slices T', s.bytes.length ≤ s.tail ∧ s.tail ≤ k ∧
+        s.bytes = (d.drop (k - s.tail)).take s.bytes.length) := by
+  obtain ⟨st0, d0, fuel0, fuel1, bp, bd, hinv0, hshort, hrun0, hD⟩ := cut_split d k T' T b' b hk hbom h' h
+  refine ⟨st0.tape, run_len_le _ _ _ _ _ _ hinv0 hrun0, ?_, short_tail_sharp hshort _ _ _ hrun0, ?_,
+    scalars_from_full d k hk T' b' h'⟩
+  · have := run_len_le _ _ _ _ _ _ (hinv0.shift _) hD
+    simpa [St.shift_tape] using this
+  · intro i hi hn
+    refine ⟨run_settled _ _ _ _ _ _ i hinv0 hi hn hrun0, ?_⟩
+    have := run_settled _ _ _ _ _ _ i (hinv0.shift (d.length - k)) (by simpa [St.shift_tape] using hi)
+      (by simpa [St.shift_tape] using hn.shift (d.length - k)) hD
+    rw [this, St.shift_tape, getElem?_shift]
+
+/-- the bound is attained: `a={[[x] k }` (cut = whole input) — the split point is in front of `[[`
+(tape `a, Object`), behind it come `Parameter, Object, MixedContainer, Unquoted, End, End` -/
+example : parse [97, 61, 123, 91, 91, 120, 93, 32, 107, 32, 125] =
+    .ok [.unquoted ⟨11, [97]⟩, .object 7 false, .parameter ⟨6, [120]⟩, .object 6 true, .mixedContainer,
+      .unquoted ⟨3, [107]⟩, .endTok 3, .endTok 1] false := by
+  decide +kernel
+
+/-- C19 (text tape), **cuts on lexeme boundaries** — for every input and every cut whose
+continuation is empty or starts with a separator byte (`SepQ`: a boundary byte other than `=` and
+`[`, i.e. the cut prefix ends where a lexeme of the full input ends, or inside / in front of a blank
+or comment run): if the truncated input parses, then the full run passes through a Key state `st0`
+(after `j` iterations, cursor in front of the blanks `d0` and the continuation) and the truncated
+tape is EXACTLY the tape of that state — all tokens equal, positions equal (`Tok.shift` only
+accounts for positions being stored as distances to the end of the input) — or that tape with the
+EOF tolerance applied: the `End` of the ONE open top-level container appended and its `Object` token
+given its `end`.  Nothing is fabricated and nothing is re-typed; and every token of that tape that
+is neither its last token nor a still open container is final in the full tape as well. -/
+theorem C19_text_tape_boundary_cut (d : Bytes) (k : Nat) (T' T : List Tok) (b' b : Bool)
+    (hk : k ≤ d.length) (hbom : hasBom (d.take k) = hasBom d) (hsep : SepQ (d.drop k))
+    (h' : parse (d.take k) = .ok T' b') (h : parse d = .ok T b) :
+    ∃ (st0 : St) (d0 : Bytes) (j fuel : Nat) (bd : Bool),
+      StInv st0 ∧ st0.state = .key ∧ skipWs d0 = none ∧
+      (∀ F, run d.length (F + j) St.init (if hasBom d = true then d.drop 3 else d) =
+        run d.length F (st0.shift (d.length - k)) (d0 ++ d.drop k)) ∧
+      run d.length fuel (st0.shift (d.length - k)) (d0 ++ d.drop k) = .ok T bd ∧
+      ((st0.parent = 0 ∧ T' = st0.tape) ∨
+       (st0.parent ≠ 0 ∧ endOf st0.tape[st0.parent]? = 0 ∧
+         T' = (st0.tape ++ [Tok.endTok st0.parent]).set st0.parent (Tok.object st0.tape.length false))) ∧
+      st0.tape.length ≤ T.length ∧
+      (∀ i, i + 1 < st0.tape.length → NotOpen st0.tape i →
+        T[i]? = (st0.tape[i]?).map (Tok.shift (d.length - k))) := by
+  have hq : (d.drop k).length = d.length - k := by simp
+  unfold parse at h' h
+  simp only at h' h
+  rw [hbom] at h'
+  generalize hdp : (if hasBom d = true then List.drop 3 (d.take k) else d.take k) = dp at h'
+  generalize hdd : (if hasBom d = true then List.drop 3 d else d) = dd at h
+  have hsplit : dd = dp ++ d.drop k := by
+    rw [← hdp, ← hdd]
+    split
+    · next hb =>
+      have hk3 : 3 ≤ k := by
+        rcases Nat.lt_or_ge k 3 with hlt | hge
+        · exfalso
+          have : hasBom (d.take k) = false := by
+            simp only [hasBom, beq_eq_false_iff_ne, ne_eq]
+            intro h0
+            have := congrArg List.length h0
+            simp at this; omega
+          rw [hbom, hb] at this; simp at this
+        · exact hge
+      rw [← List.drop_append_of_le_length (by simp; omega), List.take_append_drop]
+    · exact (List.take_append_drop k d).symm
+  generalize hrp : run (d.take k).length (fuelFor dp) St.init dp = rp at h'
+  generalize hrd : run d.length (fuelFor dd) St.init dd = rd at h
+  have hrp' : ∃ bp, rp = .ok T' bp := by cases rp <;> simp [Res.withBom] at h'; exact ⟨_, by rw [h'.1]⟩
+  have hrd' : ∃ bd, rd = .ok T bd := by cases rd <;> simp [Res.withBom] at h; exact ⟨_, by rw [h.1]⟩
+  obtain ⟨bp, rfl⟩ := hrp'
+  obtain ⟨bd, rfl⟩ := hrd'
+  obtain ⟨j, st0, d0, hinv0, hsk0, heof, hlock⟩ :=
+    run_lockstepB (d.take k).length d.length (d.drop k) hsep (fuelFor dp) St.init dp _ _ hrp StInv.init
+  rw [hq, ← hsplit, show St.init.shift (d.length - k) = St.init from rfl] at hlock
+  have hD : run d.length (fuelFor dd) (st0.shift (d.length - k)) (d0 ++ d.drop k) = .ok T bd := by
+    have := hlock (fuelFor dd)
+    rw [run_more_fuel _ _ j _ _ _ hrd (by simp)] at this
+    exact this.symm
+  obtain ⟨hkey, _, hshape⟩ := atEof_shape heof
+  refine ⟨st0, d0, j, fuelFor dd, bd, hinv0, hkey, hsk0, hlock, hD, ?_, ?_, ?_⟩
+  · rcases hshape with ⟨h1, h2⟩ | ⟨h1, h2, _, h4⟩
+    · exact .inl ⟨h1, h2⟩
+    · exact .inr ⟨h1, h2, h4⟩
+  · have := run_len_le _ _ _ _ _ _ (hinv0.shift _) hD
+    simpa [St.shift_tape] using this
+  · intro i hi hn
+    have := run_settled _ _ _ _ _ _ i (hinv0.shift (d.length - k)) (by simpa [St.shift_tape] using hi)
+      (by simpa [St.shift_tape] using hn.shift (d.length - k)) hD
+    rw [this, St.shift_tape, getElem?_shift]
+
+/-- the hypotheses are satisfiable: `a={b=c d=e}` cut after `a={b=c` (the continuation starts with a
+blank): the truncated tape is the full run's tape at that point, `[a, O, b, c]`, with the open object
+closed by the end of the input -/
+example :
+    let d : Bytes := [97, 61, 123, 98, 61, 99, 32, 100, 61, 101, 125]
+    SepQ (d.drop 6) ∧ (∃ T' b', parse (d.take 6) = .ok T' b') ∧ (∃ T b, parse d = .ok T b) ∧
+      hasBom (d.take 6) = hasBom d :=
+  ⟨.inr ⟨32, _, rfl, by decide +kernel, by decide, by decide⟩,
+   ⟨[.unquoted ⟨6, [97]⟩, .object 4 false, .unquoted ⟨3, [98]⟩, .unquoted ⟨1, [99]⟩, .endTok 1], false,
+     by decide +kernel⟩,
+   ⟨[.unquoted ⟨11, [97]⟩, .object 6 false, .unquoted ⟨8, [98]⟩, .unquoted ⟨6, [99]⟩,
+      .unquoted ⟨4, [100]⟩, .unquoted ⟨2, [101]⟩, .endTok 1], false, by decide +kernel⟩,
+   by decide +kernel⟩
 
 end Jomini.TextTape
